@@ -119,3 +119,22 @@ Fixpoint py_enum_prim (tbl : list ((Z * Z) * cstr)) (size signed : Z) : option c
 
 Definition opt_z_eqb (a b : option Z) : bool :=
   match a, b with Some x, Some y => x =? y | None, None => true | _, _ => false end.
+
+(* ---- ffi.cast('enum e', x) followed by reading the cdata (ffi.string, int()):
+     b_cast / cast_to_integer_or_char (src/c/_cffi_backend.c:4256): value = _my_PyLong_AsUnsignedLongLong(ob, 0)
+         (the Python int reduced modulo 2^64), write_raw_integer_data(cd->c_data, value, ct->ct_size):
+         the low ct_size bytes, little-endian on this platform;
+     convert_to_object on the base type: read_raw_signed_data / read_raw_unsigned_data (ct_size bytes). *)
+Fixpoint le_bytes (n : nat) (v : Z) : list Z :=
+  match n with O => [] | S k => v mod 256 :: le_bytes k (v / 256) end.
+Definition le_value (bs : list Z) : Z := fold_right (fun b acc => b + 256 * acc) 0 bs.
+
+Definition cast_store (size : nat) (x : Z) : list Z := le_bytes size (x mod 2 ^ 64).
+Definition read_raw (signed : bool) (bs : list Z) : Z :=
+  let bits := 8 * Z.of_nat (List.length bs) in
+  let u := le_value bs in
+  if signed && (2 ^ (bits - 1) <=? u) then u - 2 ^ bits else u.
+
+(* ffi.string(ffi.cast('enum e', x)) for an enum whose base type has `size` bytes *)
+Definition enum_cast_string (size : nat) (signed : bool) (names : list cstr) (vals : list Z) (x : Z) : cstr :=
+  enum_string names vals (read_raw signed (cast_store size x)).
